@@ -16,6 +16,7 @@ func init() {
 	vrt.Register("C13_frozen_program", FrozenProgram)
 	vrt.Register("C13_cache_key", CacheKey)
 	vrt.Register("C13_map_loop", MapLoop)
+	vrt.Register("C13_faulty_template_repeat", FaultyTemplateRepeat)
 }
 
 func itoa(n int) string { return strconv.Itoa(n) }
@@ -60,6 +61,24 @@ var programs = []string{
 	"<%= xs[x] %>",
 	"<%= {b: x, a: y}[\"a\"] %>|<%= {c: 1, b: 2, a: 3}[\"c\"] %>",
 	"<% let g = fn() { return {z: note(1), m: note(2), a: note(3)} } %><%= g()[\"m\"] %>",
+	"<%= tag() %>|<%= tag({id: x}) %>|<%= tag() %>",
+	"<%= tagh() { %>b<% } %>|<%= tagh() %>",
+}
+
+// tag: a helper of the usual "fill in the defaults" kind: it writes into the options it was given
+func tag(opts map[string]interface{}) string {
+	n := len(opts)
+	if _, ok := opts["class"]; !ok {
+		opts["class"] = "btn"
+	}
+	opts["seen"] = n
+	return "tag" + itoa(n)
+}
+
+func tagh(opts map[string]interface{}, help plush.HelperContext) string {
+	n := len(opts)
+	opts["block"] = help.HasBlock()
+	return "tagh" + itoa(n)
 }
 
 func newCtx(x, y int, r *recorder) *plush.Context {
@@ -70,6 +89,8 @@ func newCtx(x, y int, r *recorder) *plush.Context {
 	ctx.Set("s", S{Name: "r", Kids: []S{{Name: "a"}, {Name: "b"}}})
 	ctx.Set("note", r.note)
 	ctx.Set("blk", blk)
+	ctx.Set("tag", tag)
+	ctx.Set("tagh", tagh)
 	ctx.Set("partialFeeder", func(string) (string, error) { return "P<%= v %>,<%= w %>", nil })
 	return ctx
 }
@@ -228,5 +249,75 @@ func MapLoop() {
 	vrt.Assert(a.err == nil && b.err == nil, "a loop over a map renders")
 	vrt.Assert(a.out == ab || a.out == ba, "every entry once")
 	vrt.Assert(b.out == ab || b.out == ba, "every entry once")
+	vrt.Cover("done")
+}
+
+// "the same error": a template whose text does not parse gives the same error on
+// every execution of the same Template value, on its Clone and on a fresh parse -
+// never an output on the second try
+var faulty = []string{
+	"a<% if (x { %>b<% } %>",
+	"<%= x + %>",
+	"<% } %>",
+	"head<%= for (v) in { %><% } %>",
+	"<% let = 1 %>",
+	"ok<%= x %><% if (x) { %>open",
+	"<%= \"unterminated %>",
+	"<%= 1.2.3 %>",
+}
+
+func FaultyTemplateRepeat() {
+	src := faulty[vrt.Choice(len(faulty))]
+	if vrt.Bool() {
+		src = vrt.BytesIn(1, "ab\n") + src
+	}
+	x, y := vrt.Int(), vrt.Int()
+	vrt.Note("input", src)
+	r := &recorder{}
+	fresh, ferr := plush.NewTemplate(src)
+	var o1, o2 string
+	var e1, e2 error
+	switch vrt.Choice(4) {
+	case 0: // one Template value executed twice
+		t := &plush.Template{Input: src}
+		o1, e1 = t.Exec(newCtx(x, y, r))
+		o2, e2 = t.Exec(newCtx(x, y, r))
+	case 1: // executed, then cloned
+		t := &plush.Template{Input: src}
+		o1, e1 = t.Exec(newCtx(x, y, r))
+		o2, e2 = t.Clone().Exec(newCtx(x, y, r))
+	case 2: // the value NewTemplate returns next to its error
+		if ferr == nil {
+			o1, e1 = fresh.Exec(newCtx(x, y, r))
+			o2, e2 = fresh.Exec(newCtx(x, y, r))
+		} else {
+			o1, e1 = "", ferr
+			if fresh != nil {
+				o2, e2 = fresh.Exec(newCtx(x, y, r))
+			} else {
+				o2, e2 = "", ferr
+			}
+		}
+	default: // Render twice with the cache on
+		plush.CacheEnabled = true
+		o1, e1 = plush.Render(src, newCtx(x, y, r))
+		o2, e2 = plush.Render(src, newCtx(x, y, r))
+		plush.CacheEnabled = false
+	}
+	if ferr == nil {
+		// an unclosed block at the end of input is accepted by the parser: then both runs must simply agree
+		same(result{o1, e1, nil}, result{o2, e2, nil})
+		vrt.Cover("parses")
+		return
+	}
+	vrt.Assert(e1 != nil, "a text that does not parse is an error on first use")
+	vrt.Assert(e2 != nil, "and the same error on every later use")
+	vrt.Assert(o1 == "" && o2 == "", "never an output")
+	if e1 != nil {
+		if e2 != nil {
+			vrt.Assert(e1.Error() == e2.Error(), "the same error text")
+			vrt.Assert(e1.Error() == ferr.Error(), "equal to the error of a fresh parse")
+		}
+	}
 	vrt.Cover("done")
 }
